@@ -149,6 +149,12 @@ func sliceKey(s any) string {
 	return sb.String()
 }
 
+// listKey: the full backing array of a string list (up to cap) and its length; a list read from a
+// discovery document has no spare capacity, so its key equals the key of an intact default list.
+func listKey(full []string, n int) string {
+	return fmt.Sprintf("list:%d:%q", n, full)
+}
+
 func epKey(e *op.Endpoint) string {
 	if e == nil {
 		return ""
@@ -630,8 +636,8 @@ func (w *world) snapshot(inst int, kind string) []lv {
 		add("(LG (GEp "+n+"))", w.reg.id(epKey(*epField(op.DefaultEndpoints, i))))
 	}
 	add("(LG GHTTPClient)", w.clientID(httphelper.DefaultHTTPClient))
-	add("(LG GClaims)", w.reg.id(sliceKey(op.DefaultSupportedClaims)))
-	add("(LG GScopes)", w.reg.id(sliceKey(op.DefaultSupportedScopes)))
+	add("(LG GClaims)", w.reg.id(listKey(op.DefaultSupportedClaims[:cap(op.DefaultSupportedClaims)], len(op.DefaultSupportedClaims))))
+	add("(LG GScopes)", w.reg.id(listKey(op.DefaultSupportedScopes[:cap(op.DefaultSupportedScopes)], len(op.DefaultSupportedScopes))))
 	add("(LG GCors)", w.reg.id(corsKey(op.VerifDefaultCORSOptions())))
 	add("(LG GEncoder)", w.reg.id(ptrKey(client.Encoder)))
 	add("(LG GErrH)", w.reg.id(fnKey(rp.DefaultErrorHandler)))
